@@ -323,7 +323,7 @@ def decide(pid, prop, tier, seed, results, extra, t0, args):
         "property_id": pid,
         "tier": tier,
         "seed": seed,
-        "level": "proof" if discharged > 0 else "other",
+        "level": (getattr(prop, "MANIFEST", {}) or {}).get("category", "proof") if discharged > 0 else "other",
         "coverage": {
             "obligations": ob_total,
             "discharged": discharged,
@@ -344,7 +344,7 @@ def decide(pid, prop, tier, seed, results, extra, t0, args):
             "known_finding_obligations_not_counted": sorted(set(kf_obligations)),
             "informational_outside_the_claim": sorted({i["obligation"] + " -- " + str(i["note"]) for i in informational})[:60],
             "known_findings_no_longer_reproducing": stale,
-            "explanation": getattr(prop, "EXPLANATION", ""),
+            "explanation": (getattr(prop, "MANIFEST", {}) or {}).get("text", "") + " | " + (getattr(prop, "MANIFEST", {}) or {}).get("note", ""),
             "evaluations": ob_total + sum(s["cases"] for s in standins),
             "distinct_nontrivial": len(names_all) + sum(s["cases"] for s in standins),
             "rule": "one evaluation per generated obligation instance (path x assertion) plus one per native stand-in case; distinct = distinct obligation names + native cases",
